@@ -454,7 +454,10 @@ Proof.
       [eapply Forall_impl; [|exact N2]; intros x [Hx _]; exact Hx|rewrite HX; reflexivity|exact Hd2|exact Hdom2|].
     exists (Some k), xs, s3. split; [|split; [discriminate|split; [exact M2|split; [exact Hxs|split; [exact N2|]]]]].
     + unfold l. cbn [enc_lin eval_item]. fold l. unfold bind at 1. fold k. rewrite E1.
-      fold (body_go t genes (Some k)). unfold bind at 1. rewrite E2. unfold bind at 1. rewrite Hmem, E3. reflexivity.
+      fold (body_go t genes (Some k)). unfold bind at 1. rewrite E2. unfold bind at 1. rewrite Hmem, Hk, members_of_gkids_fresh.
+      2:{ intros k' Hk' ->. destruct Hinv as [H1 _]. destruct (H1 k Hk') as [Hlt' _]. unfold k in Hlt'. lia. }
+      assert (Hnz : Nat.eqb (List.length xs) (List.length (@nil hog)) = false) by (destruct xs; [contradiction|reflexivity]).
+      rewrite Hnz. unfold ret at 1. unfold bind at 1. rewrite E3. reflexivity.
     + assert (Hext : ext s s3).
       { destruct X1 as (A1 & B1 & C1). destruct X2 as (A2 & B2 & C2). repeat split; try lia.
         intros k' Hk'. rewrite K3 by (unfold k; lia). rewrite C2 by lia. apply C1. exact Hk'. }
